@@ -652,6 +652,11 @@ func (e *Evaluator) call(vals map[ssa.Value]Val, c *ssa.Call, env Env, depth int
 			if l, ok := e.lenOf(vals, env, cc.Args[0], 0); ok {
 				return C(l)
 			}
+		case "append":
+			// appending to a non-nil slice yields a non-nil slice
+			if a := e.get(vals, cc.Args[0]); a.K == Ref {
+				return a
+			}
 		case "min", "max":
 			var best constant.Value
 			for _, arg := range cc.Args {
